@@ -41,7 +41,7 @@ Definition pairs_of (m : rmethod) : list (rmethod * string) :=
 Definition reply_id_of (handler : string) : string := upper_snake handler ++ "_REPLY_ID".
 
 Inductive rdiag := RDataNotFirst | RDataNotSuccess | RMissingPayload | RRedundantPayload | RDuplicated
-                 | RMismatchedQuantity | RMismatchedParam | RDataInstantiateRaw | RMismatchedPayloadMarker.
+                 | RMismatchedQuantity | RMismatchedParam | RDataInstantiateRaw | RMismatchedPayloadMarker | RHandlerClash.
 
 (* ReplyOn::excludes *)
 Definition excludes (a b : reply_on) : bool :=
@@ -132,7 +132,9 @@ Definition table_step (st : list reply_data * list rdiag) (p : rmethod * string)
   let rid := reply_id_of hid in
   match find_rd t rid with
   | Some ex =>
-      if existsb (fun h : string * reply_on => excludes (snd h) (rm_on m)) (rd_handlers ex)
+      (* two different handler names with one reply id constant (`handler1` / `handler_1`) *)
+      if negb (rd_handler_id ex =? hid) then (t, ds ++ [RHandlerClash])
+      else if existsb (fun h : string * reply_on => excludes (snd h) (rm_on m)) (rd_handlers ex)
       then (t, ds ++ map (fun _ => RDuplicated) (rd_handlers ex))
       else let '(_, dm) := rd_merge ex m in (replace_rd t rid (fun x => fst (rd_merge x m)), ds ++ dm)
   | None => let '(n, dn) := rd_new m hid in (t ++ [n], ds ++ dn)
